@@ -209,6 +209,27 @@ let do_http (op : string) (a : string list) : string =
                  | _ -> "none")))
   | _ -> "?http-args"
 
+(* ---------- C17 json ---------- *)
+let cps_of (s : string) : n list = if s = "-" then [] else List.map n_of_string (split_on ',' s)
+let fmt_cps (l : n list) : string = if l = [] then "-" else String.concat "," (List.map string_of_n l)
+(* BTreeMap semantics of parsed objects: sorted by key, last duplicate wins (canonicalisation) *)
+let rec canon (v : value) : value = match v with
+  | VArr l -> VArr (List.map canon l)
+  | VObj l ->
+      let l = List.map (fun (k, x) -> (k, canon x)) l in
+      let keys = List.sort_uniq compare (List.map (fun (k, _) -> List.map int_of_n k) l) in
+      VObj (List.map (fun ik -> let k = List.map n_of_int ik in
+                        (k, snd (List.find (fun (k', _) -> k' = k) (List.rev l)))) keys)
+  | x -> x
+let do_json (op : string) (a : string list) : string =
+  let arg = match a with [x] -> x | [] -> "-" | _ -> failwith "json args" in
+  match op with
+  | "json.quote" -> fmt_cps (quote (cps_of arg))
+  | "json.pstr" -> (match parse_string json_hex_variant (cps_of arg) with JOk (s, _) -> "ok:" ^ fmt_cps s | JErr -> "err" | JPanic -> "panic")
+  | "json.val" -> (match parse_json json_hex_variant (cps_of arg) with
+      | JOk (v, _) -> "ok:" ^ fmt_cps (stringify (canon v)) | JErr -> "err" | JPanic -> "panic")
+  | _ -> "?json-op"
+
 (* ---------- dispatch ---------- *)
 let dispatch (op : string) (args : string list) : string =
   match op with
@@ -217,6 +238,7 @@ let dispatch (op : string) (args : string list) : string =
   | "acc" | "chunks" -> do_stream op args
   | "recomp" | "optc" -> do_recomp op args
   | "tilepath" | "static" -> do_http op args
+  | _ when String.length op > 5 && String.sub op 0 5 = "json." -> do_json op args
   | "sysprog" -> (match args with
       | [off; len] -> String.concat "," (List.map (function
           | Seek o -> "seek:" ^ string_of_n o | Read l -> "read:" ^ string_of_n l
